@@ -70,7 +70,7 @@ def grids(draw):
                 lead=draw(st.sampled_from(["", " ", "\t", "        "])), trail=draw(st.sampled_from(["", " ", "\t  "])),
                 blank_lines=draw(st.sampled_from([0, 0, 1, 2])), final_newline=draw(st.booleans()),
                 hfmt=draw(st.sampled_from(["repr", "%.17g", "%.17e"])),
-                dtype=draw(st.sampled_from(["float64", "float64", "float32"])), delivery=draw(st.sampled_from(["stringio", "path", "fileobj"])))
+                dtype=draw(st.sampled_from(["float64", "float64", "float32"])), delivery=draw(st.sampled_from(["stringio", "path", "fileobj", "pathlib"])))
 
 
 def tokens_of(case):
@@ -136,6 +136,10 @@ def call_load(text, delivery, dtype):
                 f.write(text)
             if delivery == "path":
                 arg = path
+            elif delivery == "pathlib":
+                import pathlib
+
+                arg = pathlib.Path(path)  # "name or path of the grid file"
             else:
                 arg = caller = builtins.open(path, "r")
         try:
@@ -164,7 +168,7 @@ def call_load(text, delivery, dtype):
 
 
 def hygiene(ctx, delivery, opened_closed, n_opened, caller_closed):
-    if delivery == "path":
+    if delivery in ("path", "pathlib"):
         ctx.check(n_opened == 1, "load_surfer(path) opened %d files", n_opened)
         ctx.check(all(opened_closed), "load_surfer left a file it opened unclosed")
     else:
@@ -180,7 +184,7 @@ def compare(ctx, res, case, parsed, region, gid, path, what="file"):
     ctx.check(res.dtype == np.dtype(case["dtype"]), "dtype %s requested, got %s", case["dtype"], res.dtype)
     ctx.check(res.attrs.get("gridID") == gid.strip(), "gridID %r, file says %r", res.attrs.get("gridID"), gid.strip())
     if path is not None:
-        ctx.check(res.attrs.get("file") == path, "attrs['file'] = %r for path %r", res.attrs.get("file"), path)
+        ctx.check("file" in res.attrs and os.fspath(res.attrs["file"]) == path, "attrs['file'] = %r for path %r", res.attrs.get("file"), path)
     else:
         ctx.check("file" not in res.attrs, "attrs['file'] set for a file object")
     w, e, s, n = region
@@ -211,7 +215,7 @@ def check_wellformed(case, ctx):
     hygiene(ctx, case["delivery"], opened_closed, n_opened, caller_closed)
     if exc is not None:
         raise Violation("well-formed file refused: %s: %s\n%s" % (type(exc).__name__, exc, text[:600]))
-    compare(ctx, res, case, parsed, case["region"], case["gid"], path if case["delivery"] == "path" else None)
+    compare(ctx, res, case, parsed, case["region"], case["gid"], path if case["delivery"] in ("path", "pathlib") else None)
     # the other delivery gives the same result
     other = "stringio" if case["delivery"] != "stringio" else "path"
     res2, exc2, oc2, no2, cc2, path2 = call_load(text, other, case["dtype"])
@@ -348,7 +352,7 @@ ALPHABET = "0123456789+-.eE \t\n"
 def raw_cases(draw):
     """A valid small file with a few character-level edits from the numeric alphabet."""
     case = draw(grids())
-    case["delivery"] = draw(st.sampled_from(["stringio", "path"]))
+    case["delivery"] = draw(st.sampled_from(["stringio", "path", "pathlib"]))
     text, _ = render(case)
     edits = draw(st.lists(st.tuples(st.integers(0, max(0, len(text) - 1)), st.sampled_from(["del", "ins", "sub"]), st.sampled_from(ALPHABET)),
                           min_size=1, max_size=4))
@@ -394,7 +398,7 @@ def judge_raw(text, dtype, delivery, ctx):
         raise Violation("loaded a file whose header data range %r disagrees with its body range %r" % (model["z"], [min(good), max(good)]))
     fake = dict(nr=nr, nc=nc, dtype=dtype)
     if nr >= 2 and nc >= 2:
-        compare(ctx, res, fake, flat, model["region"], model["gid"], path if delivery == "path" else None, what="text")
+        compare(ctx, res, fake, flat, model["region"], model["gid"], path if delivery in ("path", "pathlib") else None, what="text")
     ctx.label("loaded")
     return True
 
